@@ -79,3 +79,16 @@ func verifClusterConfig(config ClusterConfig) ClusterConfig {
 	}
 	return config
 }
+
+// VerifPending exposes the pending-request table of a backend connection (free stream ids and requests in flight)
+// so that a harness can drive it from concurrent goroutines.
+type VerifPending struct{ p *pendingRequests }
+
+// VerifNewPending returns a table with stream ids 0..maxStreams-1.
+func VerifNewPending(maxStreams int16) VerifPending {
+	return VerifPending{p: newPendingRequests(maxStreams)}
+}
+
+func (v VerifPending) Store(r Request) int16         { return v.p.store(r) }
+func (v VerifPending) LoadAndDelete(s int16) Request { return v.p.loadAndDelete(s) }
+func (v VerifPending) Closing(err error)             { v.p.closing(err) }
